@@ -10,14 +10,18 @@ def predNames (v : BitVec 64) : String :=
   let ks : List Kind := [.float, .int32, .boolean, .null, .undefined, .object, .string, .symbol, .bigint]
   ",".intercalate ((ks.filter (fun k => holds k v)).map Kind.name)
 
+def tail (w : BitVec 64) : String :=
+  let asi := match asI32 w with | some i => hexOfNat i.toNat | none => "-"
+  s!" tb={if toBoolean true w then 1 else 0} asi32={asi}"
+
 def describe (w : BitVec 64) : String :=
-  match decode w with
+  (match decode w with
   | .null => s!"null preds={predNames w} type={(typeKind w).name}"
   | .undefined => s!"undefined preds={predNames w} type={(typeKind w).name}"
   | .boolean b => s!"boolean {if b then 1 else 0} preds={predNames w} type={(typeKind w).name}"
   | .int32 i => s!"int32 {hexOfNat i.toNat} preds={predNames w} type={(typeKind w).name}"
   | .float f => s!"float {hex16 f} preds={predNames w} type={(typeKind w).name}"
-  | .ref k _ => s!"{k.name} preds={predNames w} type={(typeKind w).name}"
+  | .ref k _ => s!"{k.name} preds={predNames w} type={(typeKind w).name}") ++ tail w
 
 def step (_ : Unit) (toks : List String) : Unit × String :=
   match toks with
